@@ -129,7 +129,8 @@ static void flush_block(long n)
 	printf("\n");
 }
 
-static void prep_cmd(int fmt, int f, int amp)
+/* one voiceless frame; returns the byte count (or -1) and copies the bytes to out */
+static int voiceless_frame(int fmt, int f, int amp, unsigned char *out, int *ticksize)
 {
 	static struct context_data *pc;
 	struct mixer_data *s;
@@ -137,10 +138,8 @@ static void prep_cmd(int fmt, int f, int amp)
 
 	if (pc == NULL)
 		pc = (struct context_data *)xmp_create_context();
-	if (pc == NULL || libxmp_mixer_on(pc, 44100, fmt, 8363) < 0) {
-		printf("prep error\n");
-		return;
-	}
+	if (pc == NULL || libxmp_mixer_on(pc, 44100, fmt, 8363) < 0)
+		return -1;
 	s = &pc->s;
 	s->freq = f;
 	s->amplify = amp;
@@ -150,15 +149,50 @@ static void prep_cmd(int fmt, int f, int amp)
 	pc->p.virt.maxvoc = 0;
 	memset(s->buffer, 0x5a, XMP_MAX_FRAMESIZE * sizeof(int16));
 	libxmp_mixer_softmixer(pc);
+	*ticksize = s->ticksize;
 	size = s->ticksize * ((fmt & XMP_FORMAT_MONO) ? 1 : 2) * ((fmt & XMP_FORMAT_8BIT) ? 1 : 2);
-	if (size < 0 || size > XMP_MAX_FRAMESIZE * (int)sizeof(int16))
-		printf("prep %d %d outside-buffer\n", s->ticksize, size);
-	else
-		printf("prep %d %d %016llx\n", s->ticksize, size, (unsigned long long)fnv1a(FNV_INIT, s->buffer, size));
+	if (size < 0 || size > XMP_MAX_FRAMESIZE * (int)sizeof(int16)) {
+		libxmp_mixer_off(pc);
+		return -2;
+	}
+	memcpy(out, s->buffer, size);
 	/* nothing may be written behind the reported size */
-	if (size >= 0 && size < XMP_MAX_FRAMESIZE * (int)sizeof(int16) && (unsigned char)s->buffer[size] != 0x5a)
+	if (size < XMP_MAX_FRAMESIZE * (int)sizeof(int16) && (unsigned char)s->buffer[size] != 0x5a)
 		ofail("overrun_frame", f, amp, size, fmt);
 	libxmp_mixer_off(pc);
+	return size;
+}
+
+static void prep_cmd(int fmt, int f, int amp)
+{
+	static unsigned char a[XMP_MAX_FRAMESIZE * 2], b[XMP_MAX_FRAMESIZE * 2];
+	int ts = 0, ts2 = 0, size, size2, i, w = (fmt & XMP_FORMAT_8BIT) ? 1 : 2;
+
+	size = voiceless_frame(fmt, f, amp, a, &ts);
+	if (size == -1) {
+		printf("prep error\n");
+		return;
+	}
+	if (size == -2) {
+		printf("prep %d -1 outside-buffer\n", ts);
+		return;
+	}
+	printf("prep %d %d %016llx\n", ts, size, (unsigned long long)fnv1a(FNV_INIT, a, size));
+	/* direct oracle on frames without voices: the rendering with the other signedness is the same
+	 * samples with the top bit flipped, and the frame has the same size */
+	size2 = voiceless_frame(fmt ^ XMP_FORMAT_UNSIGNED, f, amp, b, &ts2);
+	n_checked++;
+	if (size2 != size || ts2 != ts) {
+		ofail("unsigned_frame_size", f, amp, size2, size);
+		return;
+	}
+	for (i = 0; i < size; i++) {
+		unsigned char want = (w == 1 || (i & 1)) ? (a[i] ^ 0x80) : a[i];
+		if (b[i] != want) {
+			ofail(w == 1 ? "unsigned8_frame" : "unsigned16_frame", f, amp, b[i], want);
+			break;
+		}
+	}
 }
 
 int main(int argc, char **argv)
